@@ -241,10 +241,11 @@ def run_cost(item, rec):
         stubs.LINKS.clear()
         with history.shadowed_environment(global_rng=False):
             kw = {}
+            rngs = {}
             for k, v in post.items():
                 v = dict(v)
                 if k in ("slicing_opts", "simulated_annealing_opts"):
-                    v["seed"] = stubs.SymRng(k[:3])
+                    v["seed"] = rngs[k] = stubs.SymRng(k[:3])
                 kw[k] = v
             opt = HyperOptimizer(methods=[item["method"]], max_repeats=2, parallel=False, optlib="random", on_trial_error="raise", seed=7, **kw)
             try:
@@ -266,7 +267,8 @@ def run_cost(item, rec):
         if len(opt.scores) > 2:
             probs.append("more trials than max_repeats")
         rec.refute(ctx, bool(probs), "winning trial's recorded costs == costs of the returned tree",
-                   lambda m: dict(case=case0, problems=probs, sliced=list(tree.sliced_inds), signature=["C08cost", str(case0), str(probs)[:80]]))
+                   lambda m: dict(case=case0, problems=probs, sliced=list(tree.sliced_inds), scripts={k: stubs.script_from_model_linked(m, r) for k, r in rngs.items()},
+                                  signature=["C08cost", str(case0), str(probs)[:80]]))
 
     out = symx.explore(harness, max_paths=(300 if item["tier"] == "quick" else 3000), deadline_s=(40 if item["tier"] == "quick" else 400))
     rec.add_explore(out)
@@ -363,17 +365,24 @@ def replay(v):
             return True, "recorded costs of successful trials differ from their trees"
         return False, "selection is correct on the scripted outcomes"
     post = POST[case["post"]]
-    for seed in range(8):
+    import random as _r
+
+    for seed in ["script"] + list(range(8)):
         kw = {}
         for k, val in post.items():
             val = dict(val)
             if k in ("slicing_opts", "simulated_annealing_opts"):
-                val["seed"] = seed
+                val["seed"] = stubs.ScriptedRng(v.get("scripts", {}).get(k, [])) if seed == "script" else seed
             kw[k] = val
-        opt = HyperOptimizer(methods=[case["method"]], max_repeats=2, parallel=False, optlib="random", on_trial_error="raise", seed=seed, **kw)
+        if seed == "script":
+            # same global-generator state as in the symbolic run (trial_greedy's jitter / gumbel)
+            _r.seed(20240 + case["net"] * 100 + case["post"])
+        opt = HyperOptimizer(methods=[case["method"]], max_repeats=2, parallel=False, optlib="random", on_trial_error="raise", seed=(7 if seed == "script" else seed), **kw)
         try:
             tree = opt.search(inputs, output, size)
         except Exception as e:  # noqa
+            if seed == "script":
+                continue
             return True, f"search raised {e!r}"
         st = rebuild(tree).contract_stats()
         got = (opt.best["flops"], opt.best["write"], opt.best["size"])
